@@ -283,6 +283,13 @@ void kernels(sink& out)
     int kx = add_inst(out, ev("Inst").str("kind", "NtKernel").str("op", "mixed_add").num("exp", -8).raw("lt", ty<std::int32_t>()).raw("rt", ty<std::int32_t>()));
     int kc1 = add_inst(out, ev("Inst").str("kind", "NtKernel").str("op", "mixed_cmp_fine_coarse").num("exp", 0).raw("lt", ty<std::int32_t>()).raw("rt", ty<std::int32_t>()));
     int kc2 = add_inst(out, ev("Inst").str("kind", "NtKernel").str("op", "mixed_cmp_coarse_fine").num("exp", 0).raw("lt", ty<std::int32_t>()).raw("rt", ty<std::int32_t>()));
+    // round 9: % and / with operands of different exponents are NOT aligned (the remainder keeps the dividend's exponent, the
+    // quotient's exponent is the difference); a bare built-in dividend counts as exponent 0; %= stores back into the dividend's type
+    int kmod1 = add_inst(out, ev("Inst").str("kind", "NtKernel").str("op", "mixed_mod_coarse_fine").num("exp", -4).raw("lt", ty<std::int32_t>()).raw("rt", ty<std::int32_t>()));
+    int kmod2 = add_inst(out, ev("Inst").str("kind", "NtKernel").str("op", "mixed_mod_fine_coarse").num("exp", -8).raw("lt", ty<std::int32_t>()).raw("rt", ty<std::int32_t>()));
+    int kmod3 = add_inst(out, ev("Inst").str("kind", "NtKernel").str("op", "int_mod_scaled").num("exp", 0).raw("lt", ty<std::int32_t>()).raw("rt", ty<std::int32_t>()));
+    int kmod4 = add_inst(out, ev("Inst").str("kind", "NtKernel").str("op", "mixed_modassign").num("exp", -4).raw("lt", ty<std::int32_t>()).raw("rt", ty<std::int32_t>()));
+    int kdiv1 = add_inst(out, ev("Inst").str("kind", "NtKernel").str("op", "mixed_div_coarse_fine").num("exp", 4).raw("lt", ty<std::int32_t>()).raw("rt", ty<std::int32_t>()));
     auto mask = [](bool lt, bool le, bool gt, bool ge, bool eq, bool ne) {
         return static_cast<std::int32_t>(lt * 1 + le * 2 + gt * 4 + ge * 8 + eq * 16 + ne * 32);
     };
@@ -347,6 +354,42 @@ void kernels(sink& out)
                 std::int32_t r2 = mask(bb < a, bb <= a, bb > a, bb >= a, bb == a, bb != a);
                 out.put(ev("NtKernel").num("i", kc1).raw("l", enc(a)).raw("r", enc(b)).raw("wres", enc(m1)).num("wexp", 0).raw("bres", enc(r1)).str("wout", wo).s);
                 out.put(ev("NtKernel").num("i", kc2).raw("l", enc(a)).raw("r", enc(b)).raw("wres", enc(m2)).num("wexp", 0).raw("bres", enc(r2)).str("wout", wo).s);
+            }
+            if (a != 0 && !(b == INT32_MIN && a == -1)) {
+                using P8 = cnl::scaled_integer<std::int32_t, cnl::power<-8>>;
+                using P4 = cnl::scaled_integer<std::int32_t, cnl::power<-4>>;
+                auto x = cnl::_impl::from_rep<P8>(a);
+                auto y = cnl::_impl::from_rep<P4>(b);
+                auto rec = [&](int id, auto&& f, std::int32_t ref) {
+                    std::int32_t res = 0;
+                    int ex = 0;
+                    auto wo = guarded([&] {
+                        auto s2 = f();
+                        res = static_cast<std::int32_t>(cnl::unwrap(s2));
+                        ex = cnl::_impl::tag_of_t<decltype(s2)>::exponent;
+                    });
+                    out.put(ev("NtKernel").num("i", id).raw("l", enc(a)).raw("r", enc(b)).raw("wres", enc(res)).num("wexp", ex)
+                                    .raw("bres", enc(ref)).str("wout", wo).s);
+                };
+                rec(kmod1, [&] { return y % x; }, b % a);
+                rec(kmod3, [&] { return b % x; }, b % a);
+                rec(kmod4, [&] { auto t = y; t %= x; return t; }, b % a);
+                rec(kdiv1, [&] { return y / x; }, b / a);
+            }
+            if (b != 0 && !(a == INT32_MIN && b == -1)) {
+                using P8 = cnl::scaled_integer<std::int32_t, cnl::power<-8>>;
+                using P4 = cnl::scaled_integer<std::int32_t, cnl::power<-4>>;
+                auto x = cnl::_impl::from_rep<P8>(a);
+                auto y = cnl::_impl::from_rep<P4>(b);
+                std::int32_t res = 0;
+                int ex = 0;
+                auto wo = guarded([&] {
+                    auto s2 = x % y;
+                    res = static_cast<std::int32_t>(cnl::unwrap(s2));
+                    ex = cnl::_impl::tag_of_t<decltype(s2)>::exponent;
+                });
+                out.put(ev("NtKernel").num("i", kmod2).raw("l", enc(a)).raw("r", enc(b)).raw("wres", enc(res)).num("wexp", ex)
+                                .raw("bres", enc(a % b)).str("wout", wo).s);
             }
             auto fa = cnl::_impl::from_rep<S32>(a);
             auto fb = cnl::_impl::from_rep<S32>(b);
